@@ -102,24 +102,29 @@ int scen_opml(cmd_t * c) {
 	int itmz = !strcmp(a[2].s, "itmz");
 	char * copy = malloc(sb->n + 1); memcpy(copy, sb->s, sb->n + 1);
 	DString * ds = NULL, * res = NULL; mmd_engine * e = NULL;
-	char fam = a[0].s[0];
-	if (fam != 's') { ds = d_string_new(""); d_string_append_c_array(ds, sb->s, sb->n); }          /* (binary-safe: an ITMZ source is a ZIP archive) */
-	if (fam == 'e') e = mmd_engine_create_with_dstring(ds, 0);
-	if (fam == 's') res = itmz ? mmd_string_convert_itmz_to_text(copy) : mmd_string_convert_opml_to_text(copy);
-	else if (fam == 'd') res = itmz ? mmd_d_string_convert_itmz_to_text(ds) : mmd_d_string_convert_opml_to_text(ds);
-	else res = itmz ? mmd_engine_convert_itmz_to_text(e) : mmd_engine_convert_opml_to_text(e);
-	ev_begin("import"); ev_str("fam", a[0].s); ev_str("src", a[1].s); ev_bool("null", res == NULL);
-	if (res) {
-		ev_bytes("text", res->str, res->currentStringLength); ev_int("len", (long long)res->currentStringLength); ev_int("cap", (long long)res->currentStringBufferSize);
-		ev_int("strlen", (long long)strlen(res->str));
-	}
-	ev_end();
-	if (res && a[3].n) src_set(a[3].s, res->str, res->currentStringLength);
-	if (res) {
-		/* the returned DString must be a usable DString (C19 meets C01): append within its recorded capacity */
-		size_t room = res->currentStringBufferSize - res->currentStringLength;
-		for (size_t i = 0; i + 1 < room && i < 70000; i++) d_string_append_c(res, 'x');
-		d_string_free(res, true);
+	/* every letter of the family word is one call: "dd" / "ee" / "de" call again on the SAME DString / engine (what a call leaves behind must not matter) */
+	int needds = 0; for (const char * f = a[0].s; *f; f++) if (*f != 's') needds = 1;
+	if (needds) { ds = d_string_new(""); d_string_append_c_array(ds, sb->s, sb->n); }          /* (binary-safe: an ITMZ source is a ZIP archive) */
+	for (const char * f = a[0].s; *f; f++) {
+		char fam = *f; char famw[2] = { fam, 0 };
+		if (fam == 'e' && !e) e = mmd_engine_create_with_dstring(ds, 0);
+		if (fam == 's') res = itmz ? mmd_string_convert_itmz_to_text(copy) : mmd_string_convert_opml_to_text(copy);
+		else if (fam == 'd') res = itmz ? mmd_d_string_convert_itmz_to_text(ds) : mmd_d_string_convert_opml_to_text(ds);
+		else res = itmz ? mmd_engine_convert_itmz_to_text(e) : mmd_engine_convert_opml_to_text(e);
+		int srcsame = (fam == 's') ? !memcmp(copy, sb->s, sb->n + 1) : (ds->currentStringLength == sb->n && !memcmp(ds->str, sb->s, sb->n) && ds->str[sb->n] == 0);
+		ev_begin("import"); ev_str("fam", famw); ev_str("src", a[1].s); ev_bool("null", res == NULL); ev_bool("srcsame", srcsame);
+		if (res) {
+			ev_bytes("text", res->str, res->currentStringLength); ev_int("len", (long long)res->currentStringLength); ev_int("cap", (long long)res->currentStringBufferSize);
+			ev_int("strlen", (long long)strlen(res->str));
+		}
+		ev_end();
+		if (res && a[3].n && !f[1]) src_set(a[3].s, res->str, res->currentStringLength);
+		if (res) {
+			/* the returned DString must be a usable DString (C19 meets C01): append within its recorded capacity */
+			size_t room = res->currentStringBufferSize - res->currentStringLength;
+			for (size_t i = 0; i + 1 < room && i < 70000; i++) d_string_append_c(res, 'x');
+			d_string_free(res, true); res = NULL;
+		}
 	}
 	if (e) mmd_engine_free(e, false);
 	if (ds) d_string_free(ds, true);
